@@ -190,6 +190,7 @@ class Engine:
         for k in fc.loops:
             if k > len(loops):
                 raise StaleContract("%s has %d loops, contract names loop#%d" % (fc.qualname, len(loops), k))
+        uncovered = [k for k in range(1, len(loops) + 1) if k not in fc.loops]
         obligations = []
         stack = [[]]
         npaths = 0
@@ -218,7 +219,14 @@ class Engine:
                 if tr[i][1]:
                     stack.append([d for d, _ in tr[:i]] + [not tr[i][0]])
         self.stats["paths"] += npaths
-        info = {"function": fc.qualname, "concrete": concrete, "paths": npaths,
+        stale = None
+        if uncovered:
+            # a loop the contract knows nothing about (the code was restructured): every VC after it is too weak to mean anything.
+            # Only the syntactic frame checks survive; the function is reported as stale-contract (undecided), never as a violation.
+            obligations = [ob for ob in obligations if ob.backend == "syntactic-frame-check"]
+            stale = "loop#%s of %s has no loop contract (the code has %d loop(s), the contract covers %s)" % (
+                ",".join(map(str, uncovered)), fc.qualname, len(loops), sorted(fc.loops) or "none")
+        info = {"function": fc.qualname, "concrete": concrete, "paths": npaths, "stale": stale,
                 "source_hash": frontend.func_hash(node, modsrc.text), "file": modsrc.path, "line": node.lineno,
                 "gen_s": round(time.time() - t0, 3)}
         return obligations, info
@@ -423,8 +431,14 @@ class Path:
         self.axioms_added = set()
         # entry snapshot (for old())
         self.entry = Env(dict(self.env.locals), dict(self.env.heap), self.env.alloc, spec=True)
+        self.implicit_generator = False
         if fc.yields is not None:
             self.env.yielded = ops.seq_empty(SeqS(fc.yields))
+        elif isinstance(fc.returns, SeqS) and any(isinstance(x, (ast.Yield, ast.YieldFrom)) for x in ast.walk(node)):
+            # the contract promises an iterator value; the code is a generator function: what it yields is that iterator,
+            # and it is lazy - it keeps reading every field its body reads
+            self.implicit_generator = True
+            self.env.yielded = ops.seq_empty(fc.returns)
         # assumptions: invariants + requires
         inv_pre = fc.inv_pre if fc.inv_pre is not None else (fc.cls is not None and fc.kind == "method" and not fc.name.startswith("_") or
                                                            (fc.cls is not None and fc.kind == "method" and fc.name.startswith("__")))
@@ -457,9 +471,25 @@ class Path:
         q = fc.qualname
         if fc.kind == "init":
             result = none_v()
+        if self.implicit_generator:
+            lazy = set()
+            for x in ast.walk(self.node):
+                if isinstance(x, ast.Attribute):
+                    lazy |= self.keys_by_attr(x.attr)
+                elif isinstance(x, ast.Call) and isinstance(x.func, ast.Attribute):
+                    for cfc in self.callees_of(x):
+                        if cfc.reads_lazily:
+                            lazy |= self.keys_of_names(cfc.reads_lazily)
+            for x in ast.walk(self.node):
+                if isinstance(x, (ast.For,)):
+                    pass
+            result = V(self.env.yielded.t, self.env.yielded.s, lazy)
         if fc.returns is not None and fc.returns != NONE and fc.yields is None:
             try:
+                lz = result.lazy
                 result = ops.coerce(result, fc.returns)
+                if lz is not None:
+                    result = V(result.t, result.s, lz)
             except TypeError as e:
                 raise Unsupported("%s returns %r, contract declares %r" % (q, result.s, fc.returns))
         self.env.result = result
